@@ -135,6 +135,41 @@ for _k, _v in {'C01': '; homogeneity type system (scaling tags with exact transf
     EXTRA_TECH[_k] = EXTRA_TECH.get(_k, '') + _v
 
 
+# rules written after the unsteered rounds 6 / 7 (DESIGN section 0.7)
+_R7_TEXT = {
+    "C01": " Also (RNG1, ENUM1): interval analysis of Point.distance's returned expression (its static range must cover every non-negative distance); every Model member is enumerated by the dispatch tables.",
+    "C03": " Also (PINV1, INVS1, M3/M4): utils.invert never substitutes a pseudo-inverse; Representation.__setitem__ always recomputes the inverse letter; the word and matrix channels of the enumerator are combined on one side.",
+    "C05": " Also (INVS1, WP1, SYM1): item assignment keeps a generator and its inverse letter mutually inverse; word values are a left-to-right product; symmetric-square index tables agree.",
+    "C06": " Also (M5, BFS2, WP1): the recursion of _automaton_accepted decrements its length budget by exactly one per edge on every path.",
+    "C09": " Also (OFS1, MC1, ACC1): every GAP sub-parser measures the offset it returns on the text it was given, never on a prefix-stripped or length-changed copy.",
+    "C10": " Also (BFS3, BFS2, ACC1): the breadth-first traversals mark vertices when they are queued, so no vertex is expanded twice.",
+    "C11": " Also (HOM1, SGN1, ORD1, LK2): Segment / TangentVector._compute_aux_data contain no selection or branch decided by comparing a scale-dependent quantity with an absolute threshold (homogeneity types); np.sign is never used as a +-1 factor on a quantity that may vanish.",
+    "C12": " Also (NP3, NP2, LK2): NumPy API contracts that change a value's kind (np.sign / np.round on objects, like= from another object's integer data) are respected.",
+    "C13": " Also (RNG1, AR1): interval analysis of the returned expressions of polygon_interior_angle, TangentVector.angle and regular_polygon_radius: the static range of the angle / radius covers every value that is a correct answer for some admissible input (an interior angle up to pi cannot come out of a bare arcsin).",
+    "C14": " Also (HOM1, MEAN2, ENUM1): the arithmetic mean of ideal points is used as a sphere's centre / chord midpoint only where there are exactly two points; Segment._compute_aux_data has no threshold selection on scale-dependent data; every Model member reaches an arm.",
+    "C15": " Also (SGN1, FLIP1, LK1, CX1).",
+    "C16": " Also (SGN1, SVD1, CX1).",
+    "C17": " Also (EXP1, CLO1, MK2, STK1): a polyhedral domain (linear constraints of the enclosing range() loops and guards, decided by Fourier-Motzkin elimination) proves that every power of a matrix entry in sl2_irrep has a non-negative exponent on every iteration.",
+    "C19": " Also (RNG1, SGN1, ENUM1): circle_angles returns directions over the whole of (-pi, pi].",
+}
+_R7_TECH = {
+    "C01": "; interval analysis of returned expressions",
+    "C09": "; offset-provenance lint of the GAP sub-parsers",
+    "C11": "; homogeneity type system over the derived-data constructors; sign-factor lint",
+    "C13": "; interval analysis of returned angle / radius expressions",
+    "C14": "; homogeneity type system; mean-as-centre lint",
+    "C17": "; polyhedral (Fourier-Motzkin) analysis of loop-indexed exponents",
+    "C19": "; interval analysis; sign-factor lint",
+    "C03": "; API-contract lints on the inverse",
+    "C06": "; path rule on the length budget",
+    "C10": "; traversal marking rule",
+}
+for _k, _v in _R7_TEXT.items():
+    EXTRA_TEXT[_k] = EXTRA_TEXT.get(_k, '') + _v
+for _k, _v in _R7_TECH.items():
+    EXTRA_TECH[_k] = EXTRA_TECH.get(_k, '') + _v
+
+
 def _engine_from_evidence(pid, default):
     path = os.path.join(HERE, "evidence", f"{pid}.json")
     try:
